@@ -10,7 +10,7 @@ TECH = "deterministic simulation with fault injection: seeded search over operat
 # id -> (engine, implemented, design_ref, text, note)
 CHECKS = {
  "C06": ("kvsim-overlay", True, "DESIGN.md §4 (C06)",
-   "Seeded histories of set/remove/get/range on stacks of write-caches (depth <= 6) over four kinds of base store; the injected crash is the discard (or Err out of transactional()) at any depth and moment, the sync is the commit. Every read is compared with an ordered-map model and the base is re-read after every write. Sampling, not proof: a clean batch is evidence over ~10^6 histories per quick run.",
+   "Seeded histories of set/remove/get/range on stacks of write-caches (depth <= 6) over four kinds of base store; the injected crash is the discard (or Err out of transactional()) at any depth and moment, the sync is the commit. Every read (ranges also consumed through skip / nth / step_by / take / count / last) is compared with an ordered-map model and the base is re-read after every write. Sampling, not proof: a clean batch is evidence over ~10^6 histories per quick run.",
    "Trusted: the ordered-map model (BTreeMap), cosmwasm_std::MemoryStorage as base, the pass-through wrappers of the verif feature. Bounds: key pool of 17 adversarial keys plus random keys <= 3 bytes, <= 200 ops, depth <= 6."),
  "C07": ("kvsim-prefix", True, "DESIGN.md §4 (C07)",
    "Seeded interleavings of 2-5 namespace views (adversarial paths: empty path, empty segment, 0xff tails, segments spelling other encodings, extensions, 65535-byte segments) and a raw writer that places keys at and around the encoded prefixes, all through App's public accessors on one root store; after every step the base equals a raw-key model and every view equals filter+strip of it; read-only views must reject writes. Sampling, not proof.",
